@@ -396,8 +396,18 @@ def ag5(m, run, rule='AG5.serial-parallel'):
     if len(scalls) == 1:
         sc = scalls[0]
         skw = {k.arg: norm(k.value) for k in sc.keywords if k.arg}
+        # positional arguments of the serial call by the worker's parameter names (the element itself is the first parameter)
+        wfi = m.resolve_callable(ct.mod, sc.func)
+        wps = params_of(wfi.node) if wfi is not None else []
+        for pos, a in enumerate(sc.args[1:], 1):
+            if pos < len(wps):
+                skw[wps[pos]] = norm(a)
+        pkw = dict(wkw)
+        for pos, a in enumerate(wpos, 1):
+            if pos < len(wps):
+                pkw[wps[pos]] = a
         sstar = any(k.arg is None for k in sc.keywords)
-        ok = skw == wkw and sstar == wstar and len(sc.args) == 1
+        ok = skw == pkw and sstar == wstar and len(sc.args) >= 1
         why = 'both branches call %s(elem, %s%s)' % (wname, ', '.join('%s=%s' % kv for kv in sorted(wkw.items())), ', **kwargs' if wstar else '') if ok else \
             'serial %s%s vs parallel %s%s' % (sorted(skw.items()), ' **' if sstar else '', sorted(wkw.items()), ' **' if wstar else '')
     run.ob(rule, ct.key + ' :: same worker arguments', ok, why, site(ct, pc))
